@@ -60,7 +60,12 @@ def run(ctx):
                     f_, e_ = sorted([e.atom[2], e.atom[3]], key=lambda t: t[1].endswith('::end'))
                     if f_[1] in ('std::find', 'boost::range::find') and fv and f_[3][-1] == fv[0]:
                         waiting = not e.pol
-            if waiting is None:
+            if waiting is None and fv and not any(e.kind == 'branch' and ex.mentions(e.atom, fv[0]) for e in evs):
+                ctx.violation('R1', 'signal finishes the waiter iff it is blocked on the acquisition', where(sig, gr[0].line if gr else None),
+                              'the granted acquisition is %s with no test that its issuer is blocked on it: %s' % ('finished' if fins else 'never finished',
+                                                                                                                 'an actor that has not reached its wait yet has no simcall to answer' if fins else 'a blocked waiter is signalled but never woken'),
+                              key='R1|signal|finish iff waiting')
+            elif waiting is None:
                 ctx.unrecognised('R1', 'signal: membership test in waiting_synchros_ not recognised')
             else:
                 ctx.check((len(fins) == 1) == waiting, 'R1', 'signal finishes the waiter iff it is blocked on the acquisition (waiting=%s)' % waiting, where(sig), 'finish x%d' % len(fins), key='R1|signal|finish iff waiting')
